@@ -163,7 +163,14 @@ def run_sync(sc):
 
         def lose(cause):
             ntasks = len(w.tasks)
-            if cause == 'transport_error':
+            if cause == 'transport_error' and pattern and \
+                    pattern[0][1] == 'notreset':
+                # engine.io tells the client while its own state still says
+                # "connected" and resets only afterwards; here the first
+                # back-off of the effort ends BEFORE that
+                c.eio._trigger('disconnect', c.eio.reason.TRANSPORT_ERROR)
+                state['late_reset'] = True
+            elif cause == 'transport_error':
                 c.eio.transport_error()
             elif cause == 'client_disconnect':
                 c.disconnect()
@@ -188,6 +195,13 @@ def run_sync(sc):
                 try:
                     return orig_connect(*a, **k)
                 finally:
+                    if len(c.eio.connect_calls) == n0:
+                        # refused before anything was tried (not reset yet)
+                        c.eio.connect_calls.append({
+                            'url': a[0] if a else k.get('url'),
+                            'headers': k.get('headers'),
+                            'transports': k.get('transports'),
+                            'path': k.get('engineio_path')})
                     events.append({'ev': 'Attempt',
                                    'outcome': state['outcome'],
                                    'params': None, '_n0': n0})
@@ -203,14 +217,23 @@ def run_sync(sc):
                             e['params'] = params_of(
                                 c.eio.connect_calls[e.pop('_n0')],
                                 connects_sent(), auth)
+                    if state.get('late_reset'):
+                        c.eio._reset()      # engine.io's clean-up, at last
+                        state['late_reset'] = False
             c.connect = sio_connect
+            n_ev = len(events)
             try:
                 task.run()
             finally:
                 c.eio.connect = orig_connect
                 c.connect = orig_sio_connect
                 w.connect_outcomes = []
-            last = [e for e in events if e['ev'] in ('Attempt', 'Backoff')][-1]
+                if state.get('late_reset'):
+                    c.eio._reset()
+                    state['late_reset'] = False
+            last = ([e for e in events[n_ev:]
+                     if e['ev'] in ('Attempt', 'Backoff')] or
+                    [{'ev': 'none'}])[-1]
             if last['ev'] == 'Backoff' and last['answer'] == 'abort':
                 how = 'aborted'
             elif last['ev'] == 'Attempt' and last['outcome'] == 'ok':
@@ -307,7 +330,12 @@ def run_async(sc):
 
         async def lose(cause):
             had = c._reconnect_task
-            if cause == 'transport_error':
+            if cause == 'transport_error' and pattern and \
+                    pattern[0][1] == 'notreset':
+                await c.eio._atrigger('disconnect',
+                                      c.eio.reason.TRANSPORT_ERROR)
+                state['late_reset'] = True
+            elif cause == 'transport_error':
                 await c.eio.transport_error()
             elif cause == 'client_disconnect':
                 await c.disconnect()
@@ -346,6 +374,12 @@ def run_async(sc):
                 try:
                     return await orig_connect(*a, **k)
                 finally:
+                    if len(c.eio.connect_calls) == n0:
+                        c.eio.connect_calls.append({
+                            'url': a[0] if a else k.get('url'),
+                            'headers': k.get('headers'),
+                            'transports': k.get('transports'),
+                            'path': k.get('engineio_path')})
                     events.append({'ev': 'Attempt',
                                    'outcome': state['outcome'],
                                    'params': None, '_n0': n0})
@@ -361,6 +395,9 @@ def run_async(sc):
                             e['params'] = params_of(
                                 c.eio.connect_calls[e.pop('_n0')],
                                 connects_sent(), auth)
+                    if state.get('late_reset'):
+                        c.eio._reset()
+                        state['late_reset'] = False
                     t['t0'] = loop.time()
                     next_step()
                     if state['step'][0] == 'abort':
@@ -377,14 +414,20 @@ def run_async(sc):
                 await c.shutdown()
             if state['step'][0] == 'abort':
                 asyncio.ensure_future(aborter())
+            n_ev = len(events)
             try:
                 await task
             finally:
                 c.eio.connect = orig_connect
                 c.connect = orig_sio_connect
                 w.connect_outcomes = []
+                if state.get('late_reset'):
+                    c.eio._reset()
+                    state['late_reset'] = False
             await asyncio.sleep(0)
-            last = [e for e in events if e['ev'] in ('Attempt', 'Backoff')][-1]
+            last = ([e for e in events[n_ev:]
+                     if e['ev'] in ('Attempt', 'Backoff')] or
+                    [{'ev': 'none'}])[-1]
             if last['ev'] == 'Backoff' and last['answer'] == 'abort':
                 how = 'aborted'
             elif last['ev'] == 'Attempt' and last['outcome'] == 'ok':
@@ -461,6 +504,14 @@ def scenarios(tier, rng):
                         pats.append(base + [('abort', None)])
                         if L == maxlen:
                             pats.append(base)
+                # ... and efforts whose first back-off ends before engine.io
+                # has cleaned up after the loss (that attempt is refused at
+                # once and counts as a failed attempt)
+                pats += [[('timeout', 'notreset'), ('timeout', 'ok')],
+                         [('timeout', 'notreset'), ('timeout', 'eiofail'),
+                          ('timeout', 'ok')],
+                         [('timeout', 'notreset'), ('abort', None)],
+                         [('timeout', 'notreset')]]
                 for p in pats:
                     out.append(Scenario(cfg, cause, p,
                                         then=rng.choice(
